@@ -127,6 +127,12 @@ func decodeOracle(c *Ctx, prop string, e *harness.Entry, res *harness.Result, r 
 		if harness.AllocDelta > bound {
 			c.Fail("alloc", e.Name, allocSite(harness.AllocDelta), fmt.Sprintf("allocated %d bytes for a stream of %d bytes (bound %d)", harness.AllocDelta, held, bound))
 		}
+		if harness.NestedMax > bound {
+			c.Fail("alloc", "xmp.ParseXmp", "nested/"+allocSite(harness.NestedMax), fmt.Sprintf("one xmp.ParseXmp call made from a callback of %s allocated %d bytes; the whole stream has %d bytes (bound %d)", e.Name, harness.NestedMax, held, bound))
+		}
+		if harness.NestedAlloc > 0 {
+			c.Inc("probe:nested-parser-calls-accounted-separately")
+		}
 		if harness.AllocDelta > 64<<10 {
 			c.Inc("probe:alloc>64KiB")
 		}
@@ -570,7 +576,7 @@ func decodeMixed(c *Ctx, prop string, class int) {
 		name = fmt.Sprintf("repeatcr3(%+v)", o)
 		e = harness.EntryByName([]string{"Decode", "DecodeCR3", "PreviewCR3", "isobmff.Reader"}[gen.Intn(4)])
 		// the same blocks, many times, in the other containers (side lane; 0 = the CR3 above)
-		switch y := c.L("gen:y"); y.Intn(4) {
+		switch y := c.L("gen:y"); y.Intn(5) {
 		case 1:
 			var xmp []byte
 			if y.Bool() {
@@ -585,6 +591,18 @@ func decodeMixed(c *Ctx, prop string, class int) {
 			data = gengen.RepeatPNG(o, n)
 			name = fmt.Sprintf("repeatpng(n=%d %+v)", n, o)
 			e = harness.EntryByName([]string{"DecodePng", "png.ScanPngHeader"}[y.Intn(2)])
+		case 3:
+			// the smallest thing of one kind, thousands of times: what it costs per copy must stay
+			// within the per-byte allowance
+			kind, sub := y.Intn(4), y.Intn(4)
+			n := []int{300, 4000, 9000, 25000, 45000}[y.Intn(5)]
+			junk := []int{0, 16, 300, 1400}[y.Intn(4)]
+			if kind == 3 && n*junk > 3<<20 {
+				n = (3 << 20) / junk
+			}
+			data = gengen.ManyTiny(kind, sub, n, junk)
+			name = fmt.Sprintf("manytiny(kind=%d sub=%d n=%d junk=%d)", kind, sub, n, junk)
+			e = harness.EntryByName([][]string{{"Decode", "DecodeHeif", "isobmff.Reader"}, {"PreviewCR3", "DecodeCR3", "isobmff.Reader"}, {"jpeg.ScanJPEG", "DecodeJPEG", "Decode"}, {"xmp.ParseXmp"}}[kind][y.Intn(3)%[]int{3, 3, 3, 1}[kind]])
 		}
 		hi = len(data)
 	} else if class == 6 {
